@@ -246,6 +246,28 @@ Section Matcher.
     end.
 End Matcher.
 
+(* Domain in which [m] is Go's semantics.  Go's engines never visit the same (instruction, position) twice;
+   without an empty-width cycle this cannot change the outcome of a priority search, with one it can
+   (`(a??b??)*c` on "abc": Go reports group 1 = (0,2), a backtracking search (1,2)).  The only cycles are
+   loops whose body can match the empty string, so the model is claimed exact where every loop body consumes. *)
+Fixpoint consumes (e : rx) : bool :=
+  match e with
+  | RSet _ => true
+  | RCat a b => consumes a || consumes b
+  | RAlt a b => consumes a && consumes b
+  | RPlus _ a => consumes a
+  | RGroup _ a => consumes a
+  | _ => false
+  end.
+
+Fixpoint loops_ok (e : rx) : bool :=
+  match e with
+  | RCat a b | RAlt a b => loops_ok a && loops_ok b
+  | RStar _ a | RPlus _ a => consumes a && loops_ok a
+  | RQuest _ a | RGroup _ a => loops_ok a
+  | _ => true
+  end.
+
 (* leftmost search *)
 Fixpoint find_from (e : rx) (p : option rune) (s : list rune) (i : nat) {struct s} : option (nat * nat * caps) :=
   match m e p s i [] (fun _ _ i' c => Some (i, i', c)) with
@@ -614,6 +636,10 @@ Definition den_top (e : sx) : option (rx * nat * list string) :=
   | Some (r, st) => Some (r, (d_next st - 1)%nat, rev (d_names st))
   | None => None
   end.
+
+(* the tree elaborates, and to an expression inside the exact domain *)
+Definition model_exact (e : sx) : bool :=
+  match den_top e with Some (r, _, _) => loops_ok r | None => false end.
 
 Definition find_go (e : sx) (subject : string) : option (option (list Z)) :=
   match den_top e with
